@@ -126,10 +126,32 @@ package verifier
 //@           && arg(call (*signatureVerifier).jsonldProof #1, 2) == credentialToVerify.Issuer.String() && arg(call (*signatureVerifier).jsonldProof #1, 3) == validateAt
 //@           && did(call jsonld.AllFieldsDefined #1) && isNilIface(ret(call jsonld.AllFieldsDefined #1))
 //@           && isNilIface(ret(call json.Marshal #1).1) && arg(call jsonld.AllFieldsDefined #1, 1) == ret(call json.Marshal #1).0
-//@           && arg(call json.Marshal #1, 0) == any(credentialToVerify))
+//@           && arg(call json.Marshal #1, 0) == any(credentialToVerify)
+//@           && did(call hasEmbeddedContext #1) && !ret(call hasEmbeddedContext #1) && arg(call hasEmbeddedContext #1, 0) == ret(call json.Marshal #1).0)
 //@     || (did(call (*signatureVerifier).jwtSignature #1) && isNilIface(ret(call (*signatureVerifier).jwtSignature #1))
 //@           && arg(call (*signatureVerifier).jwtSignature #1, 1) == credentialToVerify.Raw()
 //@           && arg(call (*signatureVerifier).jwtSignature #1, 2) == credentialToVerify.Issuer.String() && arg(call (*signatureVerifier).jwtSignature #1, 3) == validateAt)
+
+// A JSON-LD context embedded below the top level is not part of the signed dataset but decides which
+// members make it up (a term mapped to @nest hides members, a redefined term swaps them): a credential
+// that verifies has no "@context" member anywhere but at the top level (the proof, which is not part of
+// the signed document, aside). containsContext: no such member at this level, and none below it.
+//@ func containsContext
+//@   prop C01
+//@   safety
+//@   pure heap
+//@   loop 1 invariant forall n string :: (visited(1, n) && n in value.(map[string]any)) ==> n != "@context" && !containsContext(value.(map[string]any)[n])
+//@   loop 2 invariant forall k int :: 0 <= k && k < $i ==> !containsContext(value.([]any)[k])
+//@   ensures [no-context-member-here-or-below] !result && typeOf(value) == map[string]any ==>
+//@        (forall n string :: n in value.(map[string]any) ==> n != "@context" && !containsContext(value.(map[string]any)[n]))
+//@   ensures [no-context-member-in-any-element] !result && typeOf(value) == []any ==>
+//@        (forall k int :: 0 <= k && k < len(value.([]any)) ==> !containsContext(value.([]any)[k]))
+//@ func hasEmbeddedContext
+//@   prop C01
+//@   safety
+//@   assume-benign
+//@   ensures [every-member-but-context-and-proof-is-searched] isNilIface(ret(call json.Unmarshal #1)) ==> arg(call json.Unmarshal #1, 0) == document
+//@        && result == ret(call containsContext #1) && arg(call containsContext #1, 0) == any(members)
 
 //@ func (*signatureVerifier).jsonldProof
 //@   prop C01 C17
